@@ -258,7 +258,8 @@ def merge_writes(evs):
 
 PROGRAM_SCENARIOS = {'add': 'add', 'add_flat': 'add', 'add_dup': 'add', 'add_big': 'add', 'loosen': 'add',
                      'pack': 'pack', 'pack_clean': 'pack', 'pack_small': 'pack', 'pack_auto': 'pack', 'pack_nofsync': 'pack',
-                     'pack_nofsync_clean': 'pack', 'pack_novalidate': 'pack', 'pack_then_clean': 'pack', 'clean': 'clean', 'delete': 'delete'}
+                     'pack_nofsync_clean': 'pack', 'pack_novalidate': 'pack', 'pack_then_clean': 'pack', 'clean': 'clean', 'delete': 'delete',
+                     'repack': 'repack', 'repack_keep': 'repack'}
 
 
 def program_lines(name, ev, run, keys):
@@ -281,6 +282,40 @@ def program_lines(name, ev, run, keys):
         ks = [e.split(' ')[1] for e in ev if e.startswith('unlinkloose ')]
         vac = 1 if ev[:2] == ['commit', 'commit'] else 0
         lines.append((f'X clean {vac} ' + ','.join(ks)).rstrip())
+        return lines
+    if kind == 'repack':
+        # one program per pack in the order the implementation visited them (listdir order = oracle), then the final VACUUM
+        i = 0
+        n = len(ev)
+        while i < n:
+            t = ev[i].split(' ')
+            if t[0] == 'unlinkpack' and (i + 1 >= n or not ev[i + 1].startswith('link ')) and t[1] != '-1':
+                # either an empty pack being removed, or the old pack removal inside a repack (then a link follows)
+                lines.append(f'X repack {t[1]}')
+                i += 1
+            elif t[0] == 'openpack' and t[1] == '-1':
+                j = i
+                rows = []
+                pid = None
+                while j < n and not (ev[j] == 'unlinkpack -1'):
+                    tt = ev[j].split(' ')
+                    if tt[0] == 'updaterows':
+                        rows = tt[1].split(';')
+                    if tt[0] == 'repoint':
+                        pid = tt[2]
+                    j += 1
+                objs = []
+                data = bytes.fromhex(post['packs'].get(pid, ''))
+                for r in rows:
+                    k, _p, off, ln, comp, size = r.split(',')
+                    objs.append(f'{k},{hx(data[int(off):int(off) + int(ln)])},{comp},{size}')
+                lines.append(f"X repack {pid} {';'.join(objs)}")
+                i = j + 1
+            elif ev[i] == 'commit' and i + 1 < n and ev[i + 1] == 'commit':
+                lines.append('X vacuum')
+                i += 2
+            else:
+                i += 1
         return lines
     # pack: one program per openpack segment, a trailing clean_storage if loose files are unlinked after the last commit
     segs = []
